@@ -738,6 +738,86 @@ def run_bfs_md(eng, p):
                        'breadth-first sequence cut below max_depth'})
 
 
+# ---------------------------------------------------------------------------
+# filter_nodes(exprs, pred, max_depth): the nodes of dfs(exprs, max_depth)
+# for which pred holds, in that order (dfs through its contract)
+
+FN = 'ddsmt.nodes.filter_nodes'
+
+
+class DfsSeq(sym.Abstract):
+    """what nodes.dfs(exprs, max_depth) yields, by its contract"""
+
+    def __init__(self, exprs, md):
+        self.exprs, self.md = exprs, md
+
+
+def setup_fn(eng):
+    setup(eng)
+    eng.spec_required.add(FN)
+
+    def dfs(e, exprs, max_depth=None):
+        return DfsSeq(exprs, max_depth)
+
+    eng.overrides[DFS] = dfs
+
+    def entry(e, env_, p):
+        it = env_.vars['__iter__']
+        ok = isinstance(it, DfsSeq) and it.exprs is p.ghost['arg'] and \
+            it.md is p.ghost['md_arg']
+        p.oblige('C12/filter_nodes/walks-dfs-of-its-argument-with-its-depth-'
+                 'limit', ok)
+        if not ok:
+            raise sym.PathAbort('unexpected iterable')
+
+    def elem(e, env_, p):
+        n = nm.lazy_node(e, p, p.fresh_name('visited'))
+        p.ghost['cur'] = n
+        p.ghost['cur_yields'] = []
+        p.ghost['verdicts'] = []
+        return n
+
+    def end(e, env_, p):
+        ys = p.ghost['cur_yields']
+        vs = p.ghost['verdicts']
+        n = p.ghost['cur']
+        ok = len(vs) == 1 and vs[0][0] is n and (
+            ys == [n] if vs[0][1] else ys == [])
+        p.oblige('C12/filter_nodes/yields-a-node-iff-the-predicate-holds',
+                 ok, info={'signature': 'filter_nodes yields a node the '
+                           'predicate rejects, drops one it accepts, or asks '
+                           'the predicate about something else'})
+
+    eng.loop_specs[(FN, 'for expr in dfs(exprs, max_depth)')] = LoopSpec(
+        inv=lambda e, env_: True, elem=elem, on_entry=entry, on_iter_end=end)
+
+
+def run_fn(eng, p):
+    nodes_mod = eng.load_module('ddsmt.nodes')
+    forest, F = wl.forest(eng, p)
+    p.ghost['arg'] = forest
+    md = None
+    if p.decide(p.fresh_bool('has_limit')):
+        md = SNum(p.fresh_int('max_depth'))
+    p.ghost['md_arg'] = md
+
+    def pred(node):
+        v = p.decide(p.fresh_bool('pred'))
+        p.ghost.setdefault('verdicts', []).append((node, v))
+        return v
+
+    pred.__module__ = 'contracts.traversals'
+    err = None
+    try:
+        for y in eng.call(nodes_mod.g['filter_nodes'], [forest, pred, md],
+                          {}):
+            p.ghost.setdefault('cur_yields', []).append(y)
+    except PyRaise as ex:
+        err = ex
+    p.oblige('C04/filter_nodes/raises-nothing', err is None,
+             info={'outcome': repr(err.value) if err else ''})
+
+
 def contracts(tier):
     A = [ASSUME_SPEC, ASSUME_LIST, nm.ASSUME_LAZY]
     rp = wl.harness_replay('harness/nodes_native.py', ['traversal', 5],
@@ -765,6 +845,10 @@ def contracts(tier):
                                   'used)'], replay=rp),
         Contract('bfs[node]', [BFSQ], lambda e, p: run_bfs(e, p, 'node'),
                  setup=setup_bfs, assumptions=A, replay=rp),
+        Contract('filter_nodes', [FN], run_fn, setup=setup_fn,
+                 assumptions=A + ['nodes.dfs through its contract (dfs, '
+                                  'dfs[max_depth]); the predicate is an '
+                                  'arbitrary function']),
         Contract('Node.__eq__[any trees]', [EQ], run_eq, setup=setup_eq,
                  assumptions=A + [ASSUME_IDS],
                  replay=wl.harness_replay('harness/nodes_native.py',
